@@ -374,6 +374,9 @@ func (ex *Explorer) count(kind string) {
 	ex.w.res.Queries[kind]++
 }
 
+// ufRefineRounds bounds the refinement of uninterpreted (hash) functions per query.
+const ufRefineRounds = 24
+
 // query runs pc ∧ extra on one solver.
 func (ex *Explorer) query(key string, toMs int, extra *Term, wantModel bool) (satResult, map[string]uint64, string) {
 	p := ex.w.solver(key, toMs)
@@ -386,7 +389,7 @@ func (ex *Explorer) query(key string, toMs int, extra *Term, wantModel bool) (sa
 	// Uninterpreted-function refinement: a model in which an abstracted function
 	// (FNV) takes a value its concrete meaning excludes is spurious; the function's
 	// true value at the model's arguments is added as a lemma and the query repeated.
-	for iter := 0; r == resSat && m != nil && iter < 12; iter++ {
+	for iter := 0; r == resSat && m != nil; iter++ {
 		ex.scanUF(extra)
 		if len(ex.ufApps) == 0 {
 			break
@@ -405,34 +408,43 @@ func (ex *Explorer) query(key string, toMs int, extra *Term, wantModel bool) (sa
 			break
 		}
 		added := 0
-		for _, u := range ex.ufApps {
-			var conj *Term
-			for _, a := range u.args {
-				if a.op == OpConst {
+		if iter < ufRefineRounds {
+			for _, u := range ex.ufApps {
+				var conj *Term
+				for _, a := range u.args {
+					if a.op == OpConst {
+						continue
+					}
+					e := mkEq(a, mkConst(evalTerm(a, m, memo), a.w, a.signed))
+					if conj == nil {
+						conj = e
+					} else {
+						conj = mkAnd(conj, e)
+					}
+				}
+				if conj == nil {
 					continue
 				}
-				e := mkEq(a, mkConst(evalTerm(a, m, memo), a.w, a.signed))
-				if conj == nil {
-					conj = e
-				} else {
-					conj = mkAnd(conj, e)
+				lemma := mkOr(mkNot(conj), mkEq(u, mkConst(evalTerm(u, m, memo), u.w, u.signed)))
+				if ex.lemmaSeen == nil {
+					ex.lemmaSeen = map[uint64]bool{}
 				}
+				if ex.lemmaSeen[lemma.hash()] {
+					continue
+				}
+				ex.lemmaSeen[lemma.hash()] = true
+				ex.pc = append(ex.pc, lemma)
+				added++
 			}
-			if conj == nil {
-				continue
-			}
-			lemma := mkOr(mkNot(conj), mkEq(u, mkConst(evalTerm(u, m, memo), u.w, u.signed)))
-			if ex.lemmaSeen == nil {
-				ex.lemmaSeen = map[uint64]bool{}
-			}
-			if ex.lemmaSeen[lemma.hash()] {
-				continue
-			}
-			ex.lemmaSeen[lemma.hash()] = true
-			ex.pc = append(ex.pc, lemma)
-			added++
+		}
+		if debugPanics {
+			fmt.Fprintf(os.Stderr, "UF-REFINE iter=%d added=%d apps=%d model=%v\n", iter, added, len(ex.ufApps), m)
 		}
 		if added == 0 {
+			// no real witness within the refinement budget: the only models the solver
+			// offers need the abstracted hash function to take values it does not take
+			ex.count("uf-spurious")
+			r, m, why = resUnknown, nil, "uf-spurious"
 			break
 		}
 		ex.w.res.Bounds["uf-refinement-lemmas"] += added
@@ -458,12 +470,29 @@ func (ex *Explorer) query(key string, toMs int, extra *Term, wantModel bool) (sa
 // (e.g. bit operations in the integer encoding) the other encoding is asked.
 func (ex *Explorer) feasQuery(extra *Term) (satResult, map[string]uint64, string) {
 	r, m, why := ex.query(ex.primaryKey(), ex.cfg.FeasMs, extra, true)
+	if why == "uf-spurious" {
+		// Branches that exist only if two different strings have the same FNV hash (or a
+		// hash has a particular order) and for which no real witness was found within
+		// ufRefineRounds are not explored (stated in the evidence bounds).
+		ex.w.res.Bounds["branches-needing-an-unwitnessed-fnv-hash-coincidence-pruned"]++
+		return resUnsat, nil, why
+	}
 	if r == resUnknown && strings.HasPrefix(why, "unsupported") {
 		alt := "z3-bv"
 		if ex.th == thBV {
 			alt = "z3-int"
 		}
 		r, m, why = ex.query(alt, ex.cfg.FeasMs, extra, true)
+	}
+	if r == resUnknown && why != "uf-spurious" && ex.th == thINT && ex.cfg.QueryMs > ex.cfg.FeasMs {
+		// an undecided branch is explored as if feasible, which costs more than asking
+		// once more with the assertion time limit
+		ex.count("feasibility-retry-long")
+		r, m, why = ex.query(ex.primaryKey(), ex.cfg.QueryMs, extra, true)
+		if why == "uf-spurious" {
+			ex.w.res.Bounds["branches-needing-an-unwitnessed-fnv-hash-coincidence-pruned"]++
+			return resUnsat, nil, why
+		}
 	}
 	return r, m, why
 }
@@ -690,16 +719,16 @@ func (ex *Explorer) recordChoice(label string, v int) {
 // currentModel returns values for all nondets; it queries the solver if needed.
 func (ex *Explorer) currentModel() ([]NondetVal, bool) {
 	if !ex.modelOK {
-		r, m, _ := ex.query(ex.primaryKey(), ex.cfg.QueryMs, nil, true)
-		if r == resUnknown {
+		r, m, why := ex.query(ex.primaryKey(), ex.cfg.QueryMs, nil, true)
+		if r == resUnknown && why != "uf-spurious" {
 			for _, k := range ex.fallbackKeys() {
-				r, m, _ = ex.query(k, ex.cfg.QueryMs, nil, true)
-				if r != resUnknown {
+				r, m, why = ex.query(k, ex.cfg.QueryMs, nil, true)
+				if r != resUnknown || why == "uf-spurious" {
 					break
 				}
 			}
 		}
-		if r == resUnsat {
+		if r == resUnsat || why == "uf-spurious" {
 			// the path was only kept because a feasibility query had timed out
 			panic(pathAbort{"path condition unsatisfiable (found late)"})
 		}
@@ -773,11 +802,11 @@ func (ex *Explorer) assert(label string, cond value) {
 		}
 		r, m, why := ex.query(ex.assertKey(), ex.cfg.QueryMs, nc, true)
 		used := ex.assertKey()
-		if r == resUnknown {
+		if r == resUnknown && why != "uf-spurious" {
 			for _, k := range ex.fallbackKeys() {
 				r, m, why = ex.query(k, ex.cfg.QueryMs, nc, true)
 				used = k
-				if r != resUnknown {
+				if r != resUnknown || why == "uf-spurious" {
 					break
 				}
 			}
